@@ -8,6 +8,30 @@ SHARD = 10
 CORR = ["corr_send", "corr_recv", "corr_resegment", "corr_ack_frames"]
 SPEC = ["spec_delivery", "spec_limit"]
 
+# dialing side of a pool link: handshake tails, link drops, re-dials (harness sub-command `redial`)
+RD_IMPORTS = ("From Coq Require Import Uint63.\n"
+              "From Ergo Require Import Common.Base Proto.Model Proto.Cases Proto.Redial Proto.RedialCases.\n"
+              "Local Open Scope Z_scope.")
+RD_CORR = ["corr_rd_delivery", "corr_rd_loop"]
+RD_SPEC = ["spec_rd_once"]
+RD_MONITOR = ("dup:", "lost:", "extra:", "back:", "unknown:")   # lines of the Go monitor that state C12 (order: is C13)
+
+
+def _replay_engine(path):
+    import json
+    try:
+        return json.load(open(path)).get("engine") or ""
+    except (OSError, ValueError):
+        return ""
+
+
+def _redial(c, n, name="redial", corr=RD_CORR, env=None, replay=None):
+    args = ["redial", "-replay", replay] if replay else ["redial", "-n", str(n)]
+    out = c.harness("proto", args, timeout=900, env=env)
+    if out:
+        out["monitor"] = [m for m in (out.get("monitor") or []) if m["what"].startswith(RD_MONITOR)]
+        c.cases(name, out, RD_IMPORTS, "rcase", corr=corr, spec=RD_SPEC, premise=["premise_rd"], shard=40)
+
 
 def _prepare():
     """The cases carry the raw wire bytes: give coqc a deep stack and evaluate small shards in parallel
@@ -31,12 +55,18 @@ def run(c):
     _prepare()
     c.proofs("theories/Properties/C12.v", clean=(c.tier == "thorough"))
     n = 150 if c.tier == "quick" else 2400
-    if c.replay:
+    nrd = 200 if c.tier == "quick" else 3000
+    out = None
+    if c.replay and _replay_engine(c.replay).startswith("redial"):
+        _redial(c, 1, replay=c.replay)
+    elif c.replay:
         out = c.harness("proto", ["c12", "-replay", c.replay])
     else:
         out = c.harness("proto", ["c12", "-n", str(n)], timeout=900)
     if out:
         c.cases("frames", out, IMPORTS, "pcase", corr=CORR, spec=SPEC, premise=["premise_c12"])
+    if not c.replay:
+        _redial(c, nrd)
     if c.broken and not c.violations and not c.replay:
         # something no longer checks: spend the extra search budget looking for a failing input
         out = c.harness("proto", ["c12", "-n", str(n * 10)], timeout=1500, env={"VERIF_SEED": str(c.seed + 7919)})
@@ -44,9 +74,17 @@ def run(c):
             keep = list(c.broken)
             c.cases("frames-search", out, IMPORTS, "pcase", corr=[], spec=SPEC, premise=["premise_c12"])
             c.broken = keep + [b for b in c.broken if b not in keep]
+        if not c.violations:
+            keep = list(c.broken)
+            _redial(c, nrd * 3, name="redial-search", corr=[], env={"VERIF_SEED": str(c.seed + 7919)})
+            c.broken = keep + [b for b in c.broken if b not in keep]
     c.cov["rule"] = ("distinct = different Coq case term (requests, wire bytes, chunking, calls); non-trivial = at least one request "
                      "accepted and every send returned nil or ErrTooLarge")
     c.assumptions += [
+        "re-dial family: the peer of the dialing side is played by the harness (raw bytes of frames a real sending connection "
+        "wrote; net.Pipe, so a successful write = bytes read by serve()); a link drop is the peer closing the socket (EOF); what "
+        "the drop cut inside a frame, and what a node writes to a link between its loss and the completed re-dial, is lost with "
+        "the link (send still returns nil: the pool item stays in the pool while it is re-dialed)",
         "TCP delivers the bytes of each link in order and unchanged (the relay re-chunks but never reorders within a link)",
         "compress/decompress of the Go standard library (gzip, zlib, lzw) round-trip: abstract codec with the round-trip law as "
         "section hypothesis; in the correspondence check the codec is the table of (inner frame, stream) pairs seen on the wire, "
